@@ -45,6 +45,7 @@ let handle (line : string) : string =
   | "fsm" :: rest -> Fsm_io.run_fsm rest
   | "mem" :: rest -> Fsm_io.run_mem rest
   | "node" :: rest -> Node_io.run_node rest
+  | "final" :: rest -> Node_io.run_node ("final" :: rest)
   | "board" :: rest -> run_board rest
   | "tasks" :: rest ->
     let a = Array.of_list rest in
